@@ -3,6 +3,7 @@ package main
 import (
 	"bytes"
 	"encoding/json"
+	"errors"
 	"fmt"
 	"math"
 	"math/big"
@@ -117,6 +118,15 @@ func szTextOracle(s string, disableUnit bool) (ok bool, val uint64, class string
 
 // szJudge compares an implementation outcome with an expectation; returns "" when it conforms.
 func szJudge(got size.Size, err error, ok bool, val uint64, class string) string {
+	cls := ""
+	if err != nil {
+		cls = sizeErrClass(err)
+	}
+	return szJudgeCls(got, err, cls, ok, val, class)
+}
+
+// szJudgeCls is szJudge with the error class determined by the caller (generic error types).
+func szJudgeCls(got size.Size, err error, cls string, ok bool, val uint64, class string) string {
 	switch {
 	case ok && err != nil:
 		return fmt.Sprintf("rejected (%v), want %d", err, val)
@@ -126,8 +136,8 @@ func szJudge(got size.Size, err error, ok bool, val uint64, class string) string
 		return fmt.Sprintf("accepted as %d, want an error %s", uint64(got), class)
 	case !ok && got != 0:
 		return fmt.Sprintf("value %d next to error %v", uint64(got), err)
-	case !ok && class != "" && sizeErrClass(err) != class:
-		return fmt.Sprintf("error class %s (%v), want %s", sizeErrClass(err), err, class)
+	case !ok && class != "" && cls != class:
+		return fmt.Sprintf("error class %s (%v), want %s", cls, err, class)
 	}
 	return ""
 }
@@ -489,7 +499,7 @@ func propC04(c *Ctx) {
 			c.Op("size.parse 128 16 0 " + out)
 		}
 	}
-	below, nrand := uint64(1<<11), 1200
+	below, nrand := uint64(1536), 1200
 	if c.Thorough {
 		below, nrand = 1<<12, 6000
 	}
@@ -541,7 +551,9 @@ func propC04(c *Ctx) {
 
 // ---------------------------------------------------------------------------------------- C08
 type (
-	szInts   interface{ constraint.Ints | constraint.Uints }
+	szInts interface {
+		constraint.Ints | constraint.Uints
+	}
 	szFloats interface{ constraint.Floats }
 	szMyU8   uint8
 	szMyInt  int
@@ -568,11 +580,25 @@ func szNewWant(exact *big.Rat, unit string) (bool, uint64, string) {
 	return szArith(exact.Num(), unit)
 }
 
-func szJudgeNew(c *Ctx, kind, enc, unit string, exact *big.Rat, got size.Size, err error, emit bool) {
+func szNewErrClass[N constraint.Numbers](err error) string {
+	if err == nil {
+		return ""
+	}
+	var iv *size.InvalidValueError[N]
+	if errors.As(err, &iv) {
+		return "invalidValue"
+	}
+	return sizeErrClass(err)
+}
+
+func szJudgeNew(c *Ctx, kind, enc, unit string, exact *big.Rat, got size.Size, err error, cls string, emit bool) {
 	c.Check("")
 	line := fmt.Sprintf("size.new %s %s %s", kind, enc, hx([]byte(unit)))
 	ok, val, class := szNewWant(exact, unit)
-	if msg := szJudge(got, err, ok, val, class); msg != "" {
+	if err != nil && !strings.HasPrefix(err.Error(), "size.New: ") {
+		c.Fail("C08.new.wrap", line, "error %q does not name size.New", err)
+	}
+	if msg := szJudgeCls(got, err, cls, ok, val, class); msg != "" {
 		c.Fail("C08.new", line, "New[%s](%s, %q): %s", kind, enc, unit, msg)
 	}
 	if emit {
@@ -618,7 +644,7 @@ func szNewIntKind[N szInts](c *Ctx, kind string, emit int, vals []*big.Int, unit
 		for _, u := range units {
 			got, err := size.New(v, u)
 			i++
-			szJudgeNew(c, kind, "i:"+bi.String(), u, new(big.Rat).SetInt(bi), got, err, emit != 0 && i%emit == 0)
+			szJudgeNew(c, kind, "i:"+bi.String(), u, new(big.Rat).SetInt(bi), got, err, szNewErrClass[N](err), emit != 0 && i%emit == 0)
 		}
 	}
 }
@@ -637,7 +663,7 @@ func szNewFloatKind[N szFloats](c *Ctx, kind string, emit int, vals []float64, u
 		for _, u := range units {
 			got, err := size.New(v, u)
 			i++
-			szJudgeNew(c, kind, szFloatEnc(f), u, exact, got, err, emit != 0 && i%emit == 0)
+			szJudgeNew(c, kind, szFloatEnc(f), u, exact, got, err, szNewErrClass[N](err), emit != 0 && i%emit == 0)
 		}
 	}
 }
@@ -773,14 +799,14 @@ func propC08(c *Ctx) {
 			emit := near[idx] || idx%41 == 0
 			enc := fmt.Sprintf("i:%d", v)
 			got, err := size.New(v, u)
-			szJudgeNew(c, "uint64", enc, u, new(big.Rat).SetInt(szU(v)), got, err, emit)
+			szJudgeNew(c, "uint64", enc, u, new(big.Rat).SetInt(szU(v)), got, err, szNewErrClass[uint64](err), emit)
 			if v <= math.MaxInt64 {
 				got, err = size.New(int64(v), u)
-				szJudgeNew(c, "int64", enc, u, new(big.Rat).SetInt(szU(v)), got, err, emit && idx%3 == 0)
+				szJudgeNew(c, "int64", enc, u, new(big.Rat).SetInt(szU(v)), got, err, szNewErrClass[int64](err), emit && idx%3 == 0)
 			}
 			if f := float64(v); f < 18446744073709551616.0 && uint64(f) == v {
 				got, err = size.New(f, u)
-				szJudgeNew(c, "float64", szFloatEnc(f), u, new(big.Rat).SetInt(szU(v)), got, err, emit && idx%3 == 1)
+				szJudgeNew(c, "float64", szFloatEnc(f), u, new(big.Rat).SetInt(szU(v)), got, err, szNewErrClass[float64](err), emit && idx%3 == 1)
 			}
 			ds := szU(v).String()
 			texts := []string{ds + u, "  " + ds + " " + u + " ", szGroup3(ds, " ") + "_" + u + "   ", " " + szGroup3(ds, "_ ") + "  _" + u, szGroup3(ds, szNBSP) + szNBSP + u + " "}
@@ -813,7 +839,7 @@ func propC08(c *Ctx) {
 	for _, bad := range szBadUnits {
 		for _, v := range []uint64{0, 1, 1024, math.MaxUint64} {
 			got, err := size.New(v, bad)
-			szJudgeNew(c, "uint64", fmt.Sprintf("i:%d", v), bad, new(big.Rat).SetInt(szU(v)), got, err, true)
+			szJudgeNew(c, "uint64", fmt.Sprintf("i:%d", v), bad, new(big.Rat).SetInt(szU(v)), got, err, szNewErrClass[uint64](err), true)
 		}
 	}
 	// (b) New over all numeric kinds and derived types
@@ -1027,6 +1053,7 @@ func propC08(c *Ctx) {
 		}
 	}
 	c.NT(int64(len(bvals) * len(szBytesKinds)))
+	c.Note("C08: 18 units x boundary/power/random values, New over 18 numeric types, %d grammar texts x 2 rules, Bytes over %d values x %d types", nText, len(bvals), len(szBytesKinds))
 }
 
 // ---------------------------------------------------------------------------------------- C12
@@ -1364,6 +1391,15 @@ func propC12(c *Ctx) {
 		if mode == 1 {
 			c.Op(szParseLine(doc, 0, 16, 6))
 			c.Op(szParseLine(doc, 0, mks[c.R.Intn(5)], size.Rule(c.R.Intn(16))))
+			// accepted inputs are the rarer case: give them more configurations, around their own member count too
+			if d.szExpectFor(doc, 0, 16, 6).ok {
+				c.Op(szParseLine(doc, 0, 0, 14))
+				c.Op(szParseLine(doc, 0, d.n, size.Rule(4+c.R.Intn(4))))
+				if d.n > 1 {
+					c.Op(szParseLine(doc, 0, d.n-1, 6))
+				}
+				c.Op(szParseLine(doc, len(doc), 16, size.Rule(2+2*c.R.Intn(3))))
+			}
 		}
 	}
 	pick := func(every int) int {
@@ -1543,6 +1579,7 @@ func propC12(c *Ctx) {
 		nGen = 2500
 	}
 	var pool []string
+	const mutA, mutB = "{}[],:\"\\ 019.eE-+tfnu\x00\xff", "{}[],:\"\\ 0"
 	for i := 0; i < nGen; i++ {
 		var doc string
 		switch c.R.Intn(3) {
@@ -1572,9 +1609,12 @@ func propC12(c *Ctx) {
 		for _, g := range garbage {
 			visit(doc+g, 1)
 		}
-		muts := 40
+		muts := 24
 		if i%10 == 0 {
-			muts = 400
+			muts = 240
+		}
+		if c.Thorough {
+			muts *= 2
 		}
 		for m := 0; m < muts; m++ {
 			mut := []byte(doc)
@@ -1583,11 +1623,11 @@ func propC12(c *Ctx) {
 			case 0:
 				mut[pos] = byte(c.R.Next())
 			case 1:
-				mut[pos] = "{}[],:\"\\ 019.eE-+tfnu\x00\xff"[c.R.Intn(25)]
+				mut[pos] = mutA[c.R.Intn(len(mutA))]
 			case 2:
 				mut = append(mut[:pos], mut[pos+1:]...)
 			default:
-				mut = append(mut[:pos], append([]byte{"{}[],:\"\\ 0"[c.R.Intn(11)]}, mut[pos:]...)...)
+				mut = append(mut[:pos], append([]byte{mutB[c.R.Intn(len(mutB))]}, mut[pos:]...)...)
 			}
 			visit(string(mut), 1)
 		}
@@ -1597,7 +1637,7 @@ func propC12(c *Ctx) {
 			for b := 0; b < 256; b++ {
 				mut := []byte(base)
 				mut[pos] = byte(b)
-				if c.Thorough || b%3 == int(c.Seed%3) || b < 0x30 || (b >= 0x5b && b <= 0x5d) || b >= 0x7b && b <= 0x7f {
+				if c.Thorough || b%6 == int(c.Seed%6) || b < 0x30 || (b >= 0x5b && b <= 0x5d) || b >= 0x7b && b <= 0x7f {
 					visit(string(mut), 1)
 				} else {
 					visit(string(mut), 0)
@@ -1701,4 +1741,3 @@ func propC12(c *Ctx) {
 	c.NT(nDocs * 80)
 	c.Note("C12 judged %d distinct inputs x 80 configurations; %d token-stream lines", nDocs, nTok)
 }
-
